@@ -32,7 +32,8 @@ def gen_args(r, method, kwonly_p=0.3):
 
 def gen_func(r, name, method, ind):
     body = r.choice(["pass", "return 1", '"""doc a"""\n' + ind + "    return 'a'", "x = 'a'\n" + ind + "    return x"])
-    return "%sdef %s(%s):\n%s    %s\n" % (ind, name, gen_args(r, method), ind, body)
+    kw = "async def" if r.random() < 0.12 else "def"  # a coroutine is a definition with a name like any other
+    return "%s%s %s(%s):\n%s    %s\n" % (ind, kw, name, gen_args(r, method), ind, body)
 
 
 def gen_class(r, name, ind="", depth=0):
